@@ -313,6 +313,63 @@ class SimTarget:
         return ("SimTarget", self.name, self.serial)
 
 
+class NDTarget(np.ndarray):
+    """A real in-memory target: an ``np.ndarray`` (so dask tokenizes it by its *contents*, like any
+    user's ``np.zeros(...)`` target) that also counts writes per cell.  Two of these with equal
+    contents are still two sinks."""
+
+    @classmethod
+    def make(cls, shape, dtype, sentinel, name="tgt", lock=None):
+        t = np.full(shape, sentinel, dtype=dtype).view(cls)
+        t.sentinel = sentinel
+        t.count = np.zeros(shape, dtype=np.int64)
+        t.name = name
+        t.lock = lock
+        t.log = []
+        t.errors = []
+        t.fail_at = None
+        t.nwrites = 0
+        t.faults_fired = 0
+        return t
+
+    def __array_finalize__(self, obj):
+        if getattr(self, "errors", None) is None:
+            self.sentinel = getattr(obj, "sentinel", None)
+            self.count = None
+            self.name = getattr(obj, "name", "view")
+            self.lock = None
+            self.log = []
+            self.errors = None
+            self.fail_at = None
+            self.nwrites = 0
+            self.faults_fired = 0
+
+    @property
+    def _a(self):
+        return self.view(np.ndarray)
+
+    def __setitem__(self, idx, value):
+        if self.errors is None:  # a view/copy made by numpy or dask, not the target itself
+            return np.ndarray.__setitem__(self, idx, value)
+        reason = check_bounds(idx, self.shape, False)
+        held = None
+        if self.lock is not None:
+            held = self.lock.held_by_current()
+        v = np.asarray(value)
+        self.log.append((PHASE[0], CURRENT["task"], idx_json(idx), tuple(v.shape), held))
+        if reason:
+            self.errors.append(f"out-of-bounds write {idx_json(idx)}: {reason}")
+        if held is False:
+            self.errors.append(f"write {idx_json(idx)} by {CURRENT['task']} without holding {self.lock.name}")
+        k = self.nwrites
+        self.nwrites += 1
+        if self.fail_at is not None and k == self.fail_at:
+            self.faults_fired += 1
+            raise InjectedIOError(f"injected write fault at write {k} of {self.name}")
+        np.ndarray.__setitem__(self, idx, value)
+        self.count[idx] += 1
+
+
 class RecFn:
     """User block function that records each call (phase, shapes, block info)."""
 
